@@ -115,6 +115,11 @@ func genC03(g *Gen, tier string, idx int) *wire.Scenario {
 			if string(b.Macro) == s {
 				b.Macro = wire.Bytes("a")
 			}
+		} else if x.Core && x.Keymap != "vi-command" && x.Local == "" && i == len(seqs)-1 && len(seqs) > 1 && g.P(30) {
+			// one macro in a prefix-free table, its text plain characters that happen to spell the name of a
+			// command (an inputrc slip: quotes around a function name): typing the sequence types the text
+			b.Probe = -1
+			b.Macro = wire.Bytes(Pick(g, []string{"verif-probe-0", "verif-probe-1", "kill-whole-line", "beginning-of-line", "undo", "zq"}))
 		}
 		x.Table = append(x.Table, b)
 	}
@@ -449,7 +454,7 @@ func execC03(x *Ctx, sc *wire.Scenario) *wire.Result {
 	rt := &refTable{act: map[string]string{}}
 	for seq, b := range table {
 		switch {
-		case strings.HasPrefix(b.action, "verif-probe-"):
+		case !b.macro && strings.HasPrefix(b.action, "verif-probe-"):
 			var n int
 			fmt.Sscanf(b.action, "verif-probe-%d", &n)
 			rt.act[seq] = fmt.Sprintf("probe:%d", n)
